@@ -57,6 +57,14 @@ pub fn strings(width: usize) -> Vec<(String, String)> {
     for n in 1..=(top / 2 + 2) {
         out.push((format!("no-page-astral-mixed x{n}"), "\u{1f600}a".repeat(n)));
     }
+    // far more text than any field holds: lengths around 2^8, 2^12 and 2^16 (a length kept in 8 or 16 bits wraps
+    // in there), in one-byte, marker-led and double-byte text
+    for n in [255usize, 256, 257, 4095, 4096, 65535, 65536, 65537, 65536 + width, 131073] {
+        out.push((format!("far-too-long ascii x{n}"), "a".repeat(n)));
+        out.push((format!("far-too-long e-caron x{n}"), "\u{11b}".repeat(n)));
+        out.push((format!("far-too-long katakana x{n}"), "\u{30a2}".repeat(n)));
+        out.push((format!("far-too-long mixed x{n}"), "\u{30a2}\u{11b}y".repeat(n / 3 + 1)));
+    }
     // white space and control characters are ordinary text: nothing may trim or normalise them
     for t in [" ", "  ", " a", "a ", " a ", "a  b", "\t", "a\tb", "a\u{7f}", "\u{1}x", "x\r\n", "~{}[]"] {
         out.push((format!("ascii-odd {t:?}"), t.to_string()));
